@@ -103,6 +103,7 @@ def run(tasks, fn_name, job_timeout=120, nproc=None, extra=(), init_name=None, c
     stats = Stats()
     results = []
     ctx = multiprocessing.get_context("spawn")
+    retried = {}
     active = []        # dicts: proc, conn, optset, jobs, cur, t_start, done
     done_n = 0
     hard_grace = 15    # seconds beyond job_timeout before the parent kills
@@ -173,8 +174,15 @@ def run(tasks, fn_name, job_timeout=120, nproc=None, extra=(), init_name=None, c
                 rest = [k for k in range(len(w["jobs"])) if k not in w["done"] and k != cur]
                 if cur is not None:
                     why = "harness_timeout" if stuck else "harness_worker_died"
-                    results.append((w["optset"], w["jobs"][cur], {why: True, "_secs": round(now - w["t"], 1)}))
-                    done_n += 1
+                    jk = repr((w["optset"], w["jobs"][cur]))
+                    if why == "harness_worker_died" and retried.get(jk, 0) < 1:
+                        # a worker that dies without a timeout (e.g. allocator failure under the memory cap after many
+                        # solver contexts) gets its job retried once, alone, in a fresh process
+                        retried[jk] = retried.get(jk, 0) + 1
+                        queue.append((w["optset"], [w["jobs"][cur]]))
+                    else:
+                        results.append((w["optset"], w["jobs"][cur], {why: True, "_secs": round(now - w["t"], 1)}))
+                        done_n += 1
                 elif w.get("crash") or boot_stuck:
                     for k in rest:
                         results.append((w["optset"], w["jobs"][k], {"harness_exception": w.get("crash", "worker did not start")}))
